@@ -390,6 +390,14 @@ pub fn expand(e: &AEdit, tok: &str, ctx: &EditCtx, budget: Budget, r: &mut StdRn
                     cands.push(d.iter().collect());
                 }
             }
+            // multi-byte characters inserted at every position (the token keeps its segment count)
+            for i in 0..=hc.len() {
+                for c in ['é', '€', '😀'] {
+                    let mut d = hc.clone();
+                    d.insert(i, c);
+                    cands.push(d.iter().collect());
+                }
+            }
             cands.push(h.to_uppercase());
             cands.push(format!(" {}", h));
             cands.push(h.replace("local", "Local").replace("public", "Public"));
